@@ -734,3 +734,420 @@ def G5(vc):
         vc.ensure('reload_is_stable', Not(pure3 != s3._origin))       # the very comparison State.store makes
     vc.canary('canary.never_finished', Not(s2.finished))
     return ('for_storage', sorted(pure), s2.finished)
+
+
+# =========================================================================== G4 (bounded): the ISO-8601 pair on real datetimes
+@bounded('G4', targets=[f'{PROG}.format_iso8601', f'{PROG}.parse_iso8601', f'{PROG}.HandlerState.for_storage',
+                        f'{PROG}.HandlerState.from_storage'],
+         props=['C02', 'C16'],
+         clauses=['parse_format_round_trip', 'format_is_canonical', 'none_passes', 'shape', 'handler_state_round_trip'],
+         universe='10^4 (quick) / 10^5 (thorough) seeded datetimes between years 1 and 9999, half of them timezone-aware UTC (as '
+                  '_get_basetime() makes them) and half naive, microseconds uniformly in 0..999999 plus the edge values 0, 1, 999999, '
+                  '500000, 100000 (trailing zeros), seconds/minutes 0 and 59, leap days, year boundaries; 2000 real HandlerState objects '
+                  'built from these moments, through json.dumps/json.loads as the annotation storage does')
+def G4(b):
+    """
+    The trusted pair of G1/G5 on the real datetime.isoformat / iso8601.parse_date (third-party: bounded, labelled B):
+      parse_format_round_trip  parse_iso8601(format_iso8601(t)) == t, with the same tz-awareness and microsecond;
+      format_is_canonical      format(parse(format(t))) == format(t)  (a reloaded timestamp is rewritten identically: no patch churn);
+      none_passes              format(None) is None and parse(None) is None;
+      shape                    the string is `YYYY-MM-DDTHH:MM:SS.ffffff` (+ `+00:00` for aware moments): microseconds always present;
+      handler_state_round_trip for a real HandlerState s: from_storage(json.loads(json.dumps(s.as_in_storage()))) has the same
+                               started/stopped/delayed/retries/success/failure/purpose/message/subrefs, and its as_in_storage()
+                               equals its origin (so State.store writes nothing for it).
+    """
+    import datetime
+    import re
+    from kopf._core.actions import progression
+    rng = b.rng
+    n = 100000 if b.thorough else 10000
+    b.sampled(f'{n} seeded datetimes (seed {b.seed})')
+    utc = datetime.timezone.utc
+    edge_us = [0, 1, 999999, 500000, 100000, 10, 999990]
+    shape = re.compile(r'\d{4}-\d\d-\d\dT\d\d:\d\d:\d\d\.\d{6}(\+00:00)?\Z')
+    moments = []
+    lo, hi = datetime.datetime(1, 1, 1).toordinal(), datetime.datetime(9999, 12, 31).toordinal()
+    for k in range(n):
+        day = datetime.date.fromordinal(rng.randint(lo, hi) if k % 3 else rng.choice(
+            [lo, hi, datetime.date(2020, 2, 29).toordinal(), datetime.date(1999, 12, 31).toordinal(), datetime.date(2000, 1, 1).toordinal(),
+             datetime.date(1970, 1, 1).toordinal(), datetime.date(2038, 1, 19).toordinal()]))
+        us = rng.choice(edge_us) if k % 4 == 0 else rng.randrange(1000000)
+        t = datetime.datetime(day.year, day.month, day.day, rng.choice([0, 23, rng.randrange(24)]), rng.choice([0, 59, rng.randrange(60)]),
+                              rng.choice([0, 59, rng.randrange(60)]), us, tzinfo=utc if k % 2 else None)
+        moments.append(t)
+    b.case(key='none')
+    b.check('none_passes', progression.format_iso8601(None) is None and progression.parse_iso8601(None) is None, 'None')
+    for t in moments:
+        b.case(key=t)
+        s = progression.format_iso8601(t)
+        back = progression.parse_iso8601(s)
+        w = lambda: dict(moment=repr(t), formatted=s, parsed=repr(back))
+        b.check('shape', isinstance(s, str) and bool(shape.match(s)) and s.endswith('+00:00') == (t.tzinfo is not None), w)
+        b.check('parse_format_round_trip', back == t and (back.tzinfo is None) == (t.tzinfo is None) and back.microsecond == t.microsecond
+                and back.utcoffset() == t.utcoffset(), w)
+        b.check('format_is_canonical', progression.format_iso8601(back) == s, w)
+    # ---- whole handler states through the JSON wire format (from_storage reads the loop clock)
+    import asyncio
+
+    async def with_loop():
+        aware = [t for t in moments if t.tzinfo is not None and 1 < t.year < 9990]      # basetime + loop.time() must exist
+        for k in range(2000):
+            basetime = rng.choice(aware)
+            s = progression.HandlerState(
+                active=bool(k % 2), basetime=basetime, started=rng.choice(aware), stopped=rng.choice([None, rng.choice(aware)]),
+                delayed=rng.choice([None, rng.choice(aware)]), purpose=rng.choice([None, 'create', 'update', 'resume']),
+                retries=rng.choice([0, 1, 7, 10 ** 6]), success=rng.random() < 0.3, failure=rng.random() < 0.3,
+                message=rng.choice([None, '', 'boo!', 'ü∂ "q"\n\\']), subrefs=rng.choice([(), ['h/a'], ('h/z', 'h/a')]))
+            b.case(key=('hs', k))
+            wire = json.loads(json.dumps(s.as_in_storage(), separators=(',', ':')))
+            s2 = progression.HandlerState.from_storage(wire, basetime=basetime)
+            same = (s2.started == s.started and s2.stopped == s.stopped and s2.delayed == s.delayed and s2.retries == s.retries
+                    and s2.success == s.success and s2.failure == s.failure and s2.purpose == s.purpose
+                    and (s2.message == s.message) and list(s2.subrefs) == sorted(s.subrefs) and s2.active is False)
+            b.check('handler_state_round_trip', same and s2.as_in_storage() == s2._origin == wire,
+                    lambda: dict(state=repr(s), wire=wire, reloaded=repr(s2)))
+    asyncio.run(with_loop())
+
+
+# =========================================================================== G8: progression.deliver_results
+def _deep_ids(x, out=None):
+    """ids of every mutable container reachable from x"""
+    out = set() if out is None else out
+    if isinstance(x, (dict, list)):
+        out.add(id(x))
+        for v in (x.values() if isinstance(x, dict) else x):
+            _deep_ids(v, out)
+    return out
+
+
+@harness('G8', targets=[f'{PROG}.deliver_results'], props=['C08', 'C02'],
+         clauses=['exception_or_none_delivers_nothing', 'mapping_merged', 'other_stored_as_deep_copy', 'frame', 'outcomes_untouched'],
+         canaries=['canary.delivers_nothing', 'canary.patch_always_grows'],
+         trusted=['dict.setdefault/update, copy.deepcopy of CPython on real containers with symbolic leaves'],
+         assumes=['G8: patch is a real patches.Patch of one of the shapes {empty; fns only; metadata only; empty status; status with other '
+                  'ids; status with this id as a mapping (disjoint and overlapping keys)} x 0..2 outcomes; precondition: patch["status"], '
+                  'if present, is a mapping, and so is patch["status"][id] when the result is a mapping (only the framework writes there)'])
+def G8(vc):
+    """
+    deliver_results(outcomes=, patch=) for 0..2 outcomes of every kind:
+      exception_or_none_delivers_nothing  an outcome with an exception (whatever its result), or with the result None, changes nothing;
+      mapping_merged        a mapping result (dict, empty dict, any collections.abc.Mapping) is merged into patch.status[<id>]: afterwards
+                            it has every key of the result with the result's value, and keeps the other keys it had;
+      other_stored_as_deep_copy  any other result (0, False, '', [], numbers, strings, lists: "arbitrary JSON-serializable values",
+                            docs/results.rst) is stored as patch.status[<id>], equal to the result and sharing no mutable part with it;
+      frame                 nothing else in the patch is touched: other top-level keys, other ids under status, the transformation
+                            functions; no `status` key appears when nothing is delivered;
+      outcomes_untouched    the outcomes and their results are not modified.
+    """
+    import types
+    from kopf._cogs.structs import patches
+    from kopf._core.actions import execution
+    ld = vc.load(PROG, 'deliver_results')
+    fn_marker = lambda body: None
+    x, y = vc.int('x'), vc.str('y')
+    shapes = [lambda: patches.Patch(), lambda: patches.Patch(fns=[fn_marker]),
+              lambda: patches.Patch({'metadata': {'annotations': {'a': y}}}), lambda: patches.Patch({'status': {}}),
+              lambda: patches.Patch({'status': {'other': {'k': x}}, 'spec': {'s': 1}}, fns=[fn_marker]),
+              lambda: patches.Patch({'status': {'h1': {'old': x}}}), lambda: patches.Patch({'status': {'h1': {'old': 1, 'r1': y}, 'h2/sub': {'r1': 0}}})]
+    patch = shapes[vc.nondet(len(shapes), 'patch shape')]()
+    before, fns0 = _snapshot(patch), list(patch.fns)
+    n = vc.nondet(3, 'outcomes')
+    ids = ['h1', 'h2/sub'][:n]
+    kinds = ['none', 'empty-dict', 'dict', 'nested-dict', 'mapping-proxy', 'zero', 'false', 'empty-str', 'empty-list', 'int', 'str', 'nested-list']
+    excs = [execution.PermanentError('p'), execution.TemporaryError('t', delay=1), execution.HandlerChildrenRetry('c', delay=0), ValueError('other')]
+    # (result kind, exception): every result kind without an exception; three result kinds with every kind of exception;
+    # the second outcome of two ranges over a representative third of that (the loop body does not depend on the position)
+    combos = [(k, None) for k in kinds] + [(k, e) for e in excs for k in ('none', 'dict', 'int')]
+    combos2 = [('none', None), ('dict', None), ('int', None), ('empty-list', None), ('dict', excs[0]), ('int', excs[2])]
+    outcomes, expect = {}, {}
+    for pos, i in enumerate(ids):
+        kind, exc = (combos if pos == 0 else combos2)[vc.nondet(len(combos) if pos == 0 else len(combos2), f'result/exception of {i}')]
+        r1 = vc.int(f'{i}.r1')
+        result = {'none': None, 'empty-dict': {}, 'dict': {'r1': r1}, 'nested-dict': {'r1': r1, 'deep': {'l': [1, {'n': r1}]}},
+                  'mapping-proxy': types.MappingProxyType({'r1': r1}), 'zero': 0, 'false': False, 'empty-str': '', 'empty-list': [],
+                  'int': r1, 'str': vc.str(f'{i}.s'), 'nested-list': [{'a': [r1]}, 'b']}[kind]
+        outcomes[i] = execution.Outcome(final=vc.bool(f'{i}.final'), delay=None, result=result, exception=exc, subrefs=())
+        expect[i] = ('nothing' if exc is not None or result is None else 'merge' if kind in ('empty-dict', 'dict', 'nested-dict', 'mapping-proxy')
+                     else 'set', kind, result)
+    results_before = {i: copy.deepcopy(dict(o.result)) if isinstance(o.result, types.MappingProxyType) else _snapshot(o.result)
+                      for i, o in outcomes.items()}
+    outcome, err = outcome_of(ld.fn, outcomes=outcomes, patch=patch)
+    vc.ensure('frame', outcome == 'return')
+    if outcome != 'return':
+        return ('raised', outcome)
+    delivered = [i for i in ids if expect[i][0] != 'nothing']
+    status0 = before.get('status')
+    vc.canary('canary.delivers_nothing', not delivered)
+    vc.canary('canary.patch_always_grows', _jeq(vc, _snapshot(patch), before) is False or bool(delivered))
+    # -- frame
+    vc.ensure('frame', isinstance(patch, patches.Patch) and len(patch.fns) == len(fns0) and all(a is b for a, b in zip(patch.fns, fns0)))
+    vc.ensure('frame', set(patch) == set(before) | ({'status'} if delivered else set()))
+    for k in before:
+        if k != 'status':
+            vc.ensure('frame', _jeq(vc, patch[k], before[k]))
+    if 'status' in patch:
+        vc.ensure('frame', set(patch['status']) == set(status0 or {}) | set(delivered))
+        for k in (status0 or {}):
+            if k not in delivered:
+                vc.ensure('frame', _jeq(vc, patch['status'][k], status0[k]))
+    if not delivered:
+        vc.ensure('exception_or_none_delivers_nothing', _jeq(vc, _snapshot(patch), before))
+    for i in ids:
+        what, kind, result = expect[i]
+        had = (status0 or {}).get(i)
+        if what == 'nothing':
+            vc.ensure('exception_or_none_delivers_nothing',
+                      (i not in patch.get('status', {})) if had is None else _jeq(vc, patch['status'][i], had))
+        elif what == 'merge':
+            got = patch['status'][i]
+            vc.ensure('mapping_merged', isinstance(got, dict) and set(got) == set(had or {}) | set(result))
+            for k in result:
+                vc.ensure('mapping_merged', k in got and _jeq(vc, got[k], results_before[i][k]))
+            for k in (had or {}):
+                if k not in result:
+                    vc.ensure('mapping_merged', k in got and _jeq(vc, got[k], had[k]))
+        else:
+            got = patch['status'][i]
+            vc.ensure('other_stored_as_deep_copy', _jeq(vc, got, results_before[i]) and type(got) is type(result) or
+                      (isinstance(got, SV) and got is result))
+            vc.ensure('other_stored_as_deep_copy', not (_deep_ids(got) & _deep_ids(result)))
+    for i, o in outcomes.items():
+        now = dict(o.result) if isinstance(o.result, types.MappingProxyType) else o.result
+        vc.ensure('outcomes_untouched', outcomes[i] is o and _jeq(vc, now, results_before[i]))
+    return ('delivered', n, delivered)
+
+
+def _snapshot(x):
+    """a structural copy of real containers; proxies and scalars are immutable values and are shared"""
+    if isinstance(x, dict):
+        return {k: _snapshot(v) for k, v in x.items()}
+    if isinstance(x, (list, tuple)):
+        return [_snapshot(v) for v in x]
+    return x
+
+
+def _jeq(vc, a, b):
+    """equality of real containers with symbolic leaves, as ONE clause value (no forks): structure compared in Python,
+    leaves with Eq"""
+    if isinstance(a, dict) or isinstance(b, dict):
+        if not (isinstance(a, dict) and isinstance(b, dict)) or set(a) != set(b):
+            return False
+        return And(True, *[_jeq(vc, a[k], b[k]) for k in a])
+    if isinstance(a, (list, tuple)) or isinstance(b, (list, tuple)):
+        if not (isinstance(a, (list, tuple)) and isinstance(b, (list, tuple))) or len(a) != len(b):
+            return False
+        return And(True, *[_jeq(vc, u, v) for u, v in zip(a, b)])
+    if a is b:
+        return True
+    if isinstance(a, SV) or isinstance(b, SV):
+        return Eq(a, b)
+    return type(a) is type(b) and a == b
+
+
+# =========================================================================== E6: the Status* storages on symbolic bodies/patches
+PROGRESS = 'kopf._cogs.configs.progress'
+DIFFBASE = 'kopf._cogs.configs.diffbase'
+NULL = J.JNull
+EMPTY_OBJ = J.JObj(EMPTY_FIELDS)
+
+
+def inlined_dicts(vc):
+    """The real dicts.resolve/ensure/remove (mechanically extracted, run on the symbolic documents): inlined callees, each
+    under its own contract X5/X6/X7."""
+    out = {f'dicts.{n}': vc.load(DICTS, n).fn for n in ('resolve', 'ensure', 'remove')}
+    for n, c in (('resolve', 'X5'), ('ensure', 'X6'), ('remove', 'X7')):
+        vc.used(f'dicts.{n}', f'{c} (inlined)')
+    return out
+
+
+def wf_path(vc, doc, path, what):
+    """Precondition on patches (and on essences for clear/build): every PRESENT parent on the storage's own path is a mapping --
+    those parents are only ever created by dicts.ensure (X6) / by the framework."""
+    ok, _ = spec_ensure(jt(doc), path, NULL)
+    if vc.concrete:
+        if not holds(vc, ok):
+            vc.assume(False, what)
+    else:
+        vc.assume(ok, what)
+
+
+def value_or_absent(t, path):
+    """the term at the path, JAbsent when the path does not resolve through mappings"""
+    found, _, _, value = spec_resolve(t, path)
+    return z3.If(found, value, J.JAbsent)
+
+
+def gone_after_merge(body_t, patch_t, path):
+    """After the merge-patch (RFC 7386) of a well-formed patch onto the body, nothing is left at the path: the patch nulls it, or --
+    when the body never had it -- does not mention it."""
+    in_body = z3.Not(J.is_JAbsent(value_or_absent(body_t, path)))
+    in_patch = value_or_absent(patch_t, path)
+    return z3.If(in_body, J.is_JNull(in_patch), z3.Or(J.is_JAbsent(in_patch), J.is_JNull(in_patch)))
+
+
+def spec_stanzas(t):
+    """conventions.StorageStanzaCleaner.remove_empty_stanzas (contract E2.stanzas_exact), as a term transformer"""
+    def falsy(x):
+        return z3.Or(J.is_JNull(x), z3.And(J.is_JObj(x), J.fields(x) == EMPTY_FIELDS), z3.And(J.is_JList(x), z3.Length(J.items(x)) == 0),
+                     z3.And(J.is_JStr(x), z3.Length(J.s(x)) == 0), z3.And(J.is_JBool(x), z3.Not(J.b(x))), z3.And(J.is_JInt(x), J.i(x) == 0))
+
+    def dropped_if_empty(x):
+        return z3.If(z3.And(z3.Not(J.is_JAbsent(x)), falsy(x)), J.JAbsent, x)
+    md0, st0 = sel(t, 'metadata'), sel(t, 'status')
+    f1 = J.fields(md0)
+    f1 = z3.Store(f1, z3.StringVal('annotations'), dropped_if_empty(z3.Select(f1, z3.StringVal('annotations'))))
+    f1 = z3.Store(f1, z3.StringVal('labels'), dropped_if_empty(z3.Select(f1, z3.StringVal('labels'))))
+    md1 = z3.If(J.is_JAbsent(md0), J.JAbsent, dropped_if_empty(J.JObj(f1)))
+    return J.JObj(z3.Store(z3.Store(J.fields(t), z3.StringVal('metadata'), md1), z3.StringVal('status'), dropped_if_empty(st0)))
+
+
+def draw_record(vc, verbose_nones=True):
+    """An arbitrary progress record (progress.ProgressRecord): every field symbolic, the Optional ones also None."""
+    retries = vc.opt('rec.retries', vc.int)
+    return {'started': vc.str('rec.started'), 'stopped': vc.opt('rec.stopped', vc.str), 'delayed': None,
+            'purpose': vc.opt('rec.purpose', vc.str), 'retries': retries, 'success': vc.bool('rec.success'),
+            'failure': vc.bool('rec.failure'), 'message': vc.opt('rec.message', vc.str),
+            'subrefs': resolve(vc.fin('rec.subrefs', [None, ['h/a', 'h/b']]))}
+
+
+def draw_key(vc):
+    """A handler id: an arbitrary string (dots and slashes included), or -- second case -- a concrete dotted id."""
+    return vc.str('key') if vc.nondet(2, 'key: arbitrary | concrete dotted') == 0 else 'fn/spec.x'
+
+
+def super_stub(**methods):
+    """`super()` inside an extracted method: an object with the base-class methods BY CONTRACT"""
+    return lambda: Opaque('super()', **methods)
+
+
+def copy_of(x):
+    """copy.deepcopy of a JSON document, by contract: an equal value that shares nothing"""
+    return x.snapshot() if isinstance(x, SJson) else copy.deepcopy(x)
+
+
+@harness('E6', targets=[f'{PROGRESS}.StatusProgressStorage.fetch', f'{PROGRESS}.StatusProgressStorage.store',
+                        f'{PROGRESS}.StatusProgressStorage.purge', f'{PROGRESS}.StatusProgressStorage.touch',
+                        f'{PROGRESS}.StatusProgressStorage.clear', f'{PROGRESS}.StatusProgressStorage.__init__',
+                        f'{PROGRESS}.NoWriteStatusProgressStorage.store', f'{PROGRESS}.NoWriteStatusProgressStorage.touch'],
+         props=['C16', 'C04', 'C02'],
+         clauses=['configured_paths', 'fetch_own_record', 'fetch_no_data', 'fetch_corrupted_container_is_no_data', 'store_exact',
+                  'store_then_fetch', 'purge_exact', 'purge_complete', 'touch_exact', 'clear_exact', 'body_untouched', 'nowrite_writes_nothing'],
+         canaries=['canary.fetch_always_none', 'canary.purge_never_writes', 'canary.touch_always_writes', 'canary.clear_is_identity'],
+         trusted=['copy.deepcopy of a JSON document: an equal, unshared value (ProgressStorage.clear, reached through super())',
+                  'StorageStanzaCleaner.remove_empty_stanzas: inlined real code (its contract: E2.stanzas_exact)',
+                  'bodies.Body: a read-only mapping view of the raw object (MappingView.__getitem__ == dicts.resolve on the source)'],
+         assumes=['E6: bodies are ARBITRARY JSON objects (any shape: corrupted status stanzas included); patches / essences are arbitrary JSON '
+                  'objects whose present parents on the storage\'s own path are mappings; handler ids are arbitrary strings; three '
+                  'configurations (default; name+custom fields; one-level tuple fields)'])
+def E6(vc):
+    """
+    progress.StatusProgressStorage, method by method, for EVERY body / patch / handler id / record (dicts.* inlined: X5-X7):
+      configured_paths   field / touch_field are the configured dotted paths with {name} filled in (defaults: status.kopf.progress / .dummy);
+      fetch_own_record   the value at <field>.<id> of the body when every step is a mapping holding the next name (None for null);
+      fetch_no_data      None when the record, the container or any parent is missing, or a parent ABOVE the container is not a mapping;
+      fetch_corrupted_container_is_no_data   None as well when the container itself (status.kopf.progress) is present but not a mapping --
+                         "corrupted data [...] as if there is no data at all" (docstring of dicts.resolve, which names this very field)
+                         [known finding F-C16-4: AttributeError instead];
+      store_exact        patch' == the patch with the record at <field>.<id> (the id as ONE path step, dots and all), missing parents
+                         created, nothing else changed;   store_then_fetch: fetch of an object carrying patch' returns that record;
+      purge_exact        body has the record: patch' == patch with <field>.<id> = null;  body has not, patch has: patch' == patch minus that
+                         entry and the parents it emptied;  neither: unchanged;
+      purge_complete     hence after the merge-patch nothing is left at <field>.<id> (the record is null-ed or not mentioned);
+      touch_exact        patch' == patch with touch_field = value iff the body's value there (None if absent) differs from value; else unchanged;
+      clear_exact        the result equals the essence minus <field> (+ parents emptied by that), then minus empty metadata.annotations /
+                         labels / metadata / status; the given essence is not modified;
+      body_untouched     no method modifies the body;   nowrite_writes_nothing: NoWriteStatusProgressStorage.store/touch leave the patch alone.
+    """
+    from kopf._cogs.configs import progress
+    from kopf._cogs.structs import bodies
+    cfg = vc.nondet(3, 'configuration')
+    st = [lambda: progress.StatusProgressStorage(),
+          lambda: progress.StatusProgressStorage(name='op2', field='status.{name}.handlers', touch_field='status.{name}.touched'),
+          lambda: progress.StatusProgressStorage(field=('progress',), touch_field=['dummy'])][cfg]()
+    field = [('status', 'kopf', 'progress'), ('status', 'op2', 'handlers'), ('progress',)][cfg]
+    touch_field = [('status', 'kopf', 'dummy'), ('status', 'op2', 'touched'), ('dummy',)][cfg]
+    method = ['__init__', 'fetch', 'store', 'purge', 'touch', 'clear', 'nowrite'][vc.nondet(7, 'method')]
+    stubs = inlined_dicts(vc)
+    if method == '__init__':
+        me = Opaque('self')
+        kw = [{}, dict(name='op2', field='status.{name}.handlers', touch_field='status.{name}.touched'),
+              dict(field=('progress',), touch_field=['dummy'])][cfg]
+        vc.load(PROGRESS, 'StatusProgressStorage.__init__', stubs={'super': super_stub(__init__=lambda: None)}).fn(me, **kw)
+        vc.ensure('configured_paths', me._field == field and me._touch_field == touch_field and type(me._field) is tuple)
+        vc.ensure('configured_paths', st.field == field and st.touch_field == touch_field)
+        return ('init', cfg)
+    key = draw_key(vc)
+    kf = field + (key,)
+    allkeys = kf + touch_field
+    if method == 'clear':
+        essence = draw_obj(vc, 'essence', allkeys + ('metadata', 'annotations', 'labels'))
+        wf_path(vc, essence, field, 'no non-mapping on the storage path of the essence')
+        if vc.concrete:
+            if not isinstance(essence.get('metadata', {}), dict):
+                vc.assume(False, 'metadata is a mapping')
+        else:
+            vc.assume(z3.Or(J.is_JAbsent(sel(essence.term, 'metadata')), J.is_JObj(sel(essence.term, 'metadata'))), 'metadata is a mapping')
+        before = jt(essence)
+        ld = vc.load(PROGRESS, 'StatusProgressStorage.clear',
+                     stubs=dict(stubs, super=super_stub(clear=lambda essence: copy_of(essence))))
+        res = ld.fn(st, essence=essence)
+        _, removed = spec_remove(before, field)
+        vc.ensure('clear_exact', holds(vc, jt(res) == spec_stanzas(removed)))
+        vc.ensure('clear_exact', holds(vc, jt(essence) == before))
+        vc.canary('canary.clear_is_identity', holds(vc, jt(res) == before))
+        return ('clear', cfg)
+    raw = draw_obj(vc, 'body', allkeys)
+    body = bodies.Body(raw)
+    body0 = jt(raw)
+    if method == 'fetch':
+        ld = vc.load(PROGRESS, 'StatusProgressStorage.fetch', stubs=stubs)
+        outcome, res = outcome_of(ld.fn, st, key=key, body=body)
+        found_c, _, _, container = spec_resolve(body0, field)
+        found_r, _, _, rec = spec_resolve(body0, kf)
+        corrupted = z3.And(found_c, z3.Not(J.is_JObj(container)))
+        got = jt(res) if outcome == 'return' else J.JAbsent
+        vc.ensure('fetch_own_record', Implies(holds(vc, found_r), And(outcome == 'return', holds(vc, got == rec))))
+        vc.ensure('fetch_no_data', Implies(holds(vc, z3.And(z3.Not(found_r), z3.Not(corrupted))), outcome == 'return' and res is None))
+        vc.ensure('fetch_corrupted_container_is_no_data', Implies(holds(vc, corrupted), outcome == 'return' and res is None),
+                  excuse={'F-C16-4': holds(vc, corrupted)})
+        vc.ensure('body_untouched', holds(vc, jt(raw) == body0))
+        vc.canary('canary.fetch_always_none', outcome == 'return' and res is None)
+        return ('fetch', cfg, outcome)
+    patch = draw_obj(vc, 'patch', allkeys)
+    wf_path(vc, patch, touch_field if method == 'touch' else kf, 'present parents on the own path of the patch are mappings')
+    patch0 = jt(patch)
+    if method == 'nowrite':
+        record = draw_record(vc)
+        vc.load(PROGRESS, 'NoWriteStatusProgressStorage.store', stubs=stubs).fn(st, key=key, record=record, body=body, patch=patch)
+        vc.load(PROGRESS, 'NoWriteStatusProgressStorage.touch', stubs=stubs).fn(st, body=body, patch=patch, value='now')
+        vc.ensure('nowrite_writes_nothing', holds(vc, z3.And(jt(patch) == patch0, jt(raw) == body0)))
+        vc.ensure('nowrite_writes_nothing', issubclass(progress.NoWriteStatusProgressStorage, progress.StatusProgressStorage))
+        return ('nowrite', cfg)
+    if method == 'store':
+        record = draw_record(vc)
+        rec_t = jt(record)
+        vc.load(PROGRESS, 'StatusProgressStorage.store', stubs=stubs).fn(st, key=key, record=record, body=body, patch=patch)
+        _, expected = spec_ensure(patch0, kf, rec_t)
+        vc.ensure('store_exact', holds(vc, jt(patch) == expected))
+        # what an object carrying this part of the patch gives back
+        res = vc.load(PROGRESS, 'StatusProgressStorage.fetch', stubs=stubs).fn(st, key=key, body=bodies.Body(copy_of(patch)))
+        vc.ensure('store_then_fetch', res is not None and holds(vc, jt(res) == rec_t))
+    elif method == 'purge':
+        vc.load(PROGRESS, 'StatusProgressStorage.purge', stubs=stubs).fn(st, key=key, body=body, patch=patch)
+        in_body = z3.Not(J.is_JAbsent(value_or_absent(body0, kf)))
+        in_patch = z3.Not(J.is_JAbsent(value_or_absent(patch0, kf)))
+        _, nulled = spec_ensure(patch0, kf, NULL)
+        _, removed = spec_remove(patch0, kf)
+        vc.ensure('purge_exact', holds(vc, jt(patch) == z3.If(in_body, nulled, z3.If(in_patch, removed, patch0))))
+        vc.ensure('purge_complete', holds(vc, gone_after_merge(body0, jt(patch), kf)))
+        vc.canary('canary.purge_never_writes', holds(vc, jt(patch) == patch0))
+    else:
+        value = vc.opt('value', vc.str)
+        vc.load(PROGRESS, 'StatusProgressStorage.touch', stubs=stubs).fn(st, body=body, patch=patch, value=value)
+        at = value_or_absent(body0, touch_field)
+        current = z3.If(J.is_JAbsent(at), NULL, at)
+        _, written = spec_ensure(patch0, touch_field, jt(value))
+        vc.ensure('touch_exact', holds(vc, jt(patch) == z3.If(current != jt(value), written, patch0)))
+        vc.canary('canary.touch_always_writes', holds(vc, jt(patch) == written))
+    vc.ensure('body_untouched', holds(vc, jt(raw) == body0))
+    return (method, cfg)
